@@ -173,7 +173,14 @@ impl C08 {
         let _ = tyme4rs::tyme::solar::SolarDay::from_ymd(y as isize, 7, 1).get_sixty_cycle_day();
         let _ = t.get_solar_day().get_sixty_cycle_day().get_year();
       }
-      let h = t.get_sixty_cycle_hour();
+      // on every third case the hour object is reached by stepping from 00:30 of the same civil day instead of being built
+      // from the instant (an instant-level view is an instant-level view however it was obtained)
+      let h = if (i as i64 + s) % 3 == 0 && s >= 1800 {
+        use tyme4rs::tyme::Tyme;
+        SolarTime::from_ymd_hms(y as isize, m as usize, d as usize, 0, 30, 0).get_sixty_cycle_hour().next((s - 1800) as isize)
+      } else {
+        t.get_sixty_cycle_hour()
+      };
       let dv = if day_has_jie { None } else { Some(t.get_solar_day().get_sixty_cycle_day()) };
       (h.get_year().get_index() as i64, h.get_month().get_index() as i64, h.get_sixty_cycle_day().get_sixty_cycle_month().get_sixty_cycle_year().get_year() as i64, dv.map(|x| (x.get_year().get_index() as i64, x.get_month().get_index() as i64)))
     });
